@@ -9,6 +9,7 @@ CONSTANTS
   Fmts <- MC_FmtsOne
   MaxHist = 4
   ExtNames <- MC_ExtNone
+  MaxTimes <- MC_MaxTimesNone
   AsFound_AliasWhenNoCutoff = TRUE
   AsFound_PopOnStore = TRUE
   AsFound_BaseCsvDropsT = TRUE
